@@ -188,6 +188,9 @@ func genC16(r *sim.Rng, i int) *c16Case {
 	for _, s := range nw {
 		writes = append(writes, c16Split(r, c16Bytes(r, s, avoid), c.N)...)
 	}
+	if c.Kind == "telnet" && r.Chance(1, 8) {
+		c.Steps = append(c.Steps, c16Step{Op: "P"})
+	}
 	// peer-chosen interleaving of the two directions
 	for len(sends) > 0 || len(writes) > 0 {
 		pickSend := len(writes) == 0 || (len(sends) > 0 && r.Bool())
@@ -214,6 +217,9 @@ func c16Corpus() []*c16Case {
 		{Kind: "telnet", Via: "impl", Mode: "close", N: 16, Initial: h("login: "), Steps: []c16Step{{Op: "s", B: ff}, {Op: "w", B: ff}, {Op: "s", B: ff}}},
 		{Kind: "telnet", Via: "transport", Mode: "peerclose", N: 8192, Steps: []c16Step{{Op: "s", B: h(big)}, {Op: "w", B: h(big)}}},
 		{Kind: "telnet", Via: "transport", Mode: "close", N: 64, Initial: h(strings.Repeat("B", 200))},
+		// idle for longer than the socket timeout after Open, then both directions again
+		{Kind: "telnet", Via: "transport", Mode: "close", N: 64, Steps: []c16Step{{Op: "w", B: h("show version\n")}, {Op: "s", B: h("ok\n")}, {Op: "P"}, {Op: "w", B: h("show clock\n")}, {Op: "s", B: h("12:00\n")}}},
+		{Kind: "telnet", Via: "impl", Mode: "peerclose", N: 16, Initial: h("login: "), Steps: []c16Step{{Op: "P"}, {Op: "w", B: ff}, {Op: "s", B: ff}}},
 		{Kind: "standard", Sub: "shell", Auth: "password", Via: "transport", Mode: "close", N: 8192, Steps: []c16Step{{Op: "s", B: h(big)}, {Op: "w", B: h(big)}}},
 		{Kind: "standard", Sub: "shell", Auth: "none", Via: "transport", Mode: "close-silent", N: 64, Steps: []c16Step{{Op: "s", B: ff}, {Op: "w", B: ff}}},
 		{Kind: "standard", Sub: "netconf", Auth: "none", Via: "impl", Mode: "peerclose", N: 16, Steps: []c16Step{{Op: "w", B: h("<hello/>]]>]]>")}, {Op: "s", B: h("<hello/>]]>]]>")}}},
@@ -533,6 +539,8 @@ func runC16Case(id string, c *c16Case) {
 			}
 		case "p":
 			time.Sleep(time.Millisecond)
+		case "P": // the connection sits idle for longer than the socket timeout, then traffic goes on
+			time.Sleep(c16TelnetTimeout + 150*time.Millisecond)
 		}
 		if cs.Oracle != "" {
 			break
